@@ -230,7 +230,65 @@ func Pages(r *rng.R, n int) Result {
 				res.Failures = append(res.Failures, Failure{What: what, Sig: sig, Prop: "C13", Case: desc})
 			}
 			valid := pid != 0
-			switch cr.Intn(10) {
+			// a page size far above the number of entries: the usual way a client says "all that is left"; the
+			// model, whose page sizes are nats, is handed L+1 (Props/C13.v C13_huge_limits)
+			hugeShare := 15
+			huge := func(lim int) (uint64, int, string) {
+				if cr.Chance(hugeShare) {
+					h := rng.Pick(cr, []uint64{1 << 63, ^uint64(0), 1<<63 - 1, 1 << 32, 1<<31 - 1})
+					return h, L + 1, fmt.Sprint(h)
+				}
+				return uint64(lim), lim, fmt.Sprint(lim)
+			}
+			switch cr.Intn(12) {
+			case 10, 11: // one page of lim1 from the start, then one page of lim2 from its next key
+				lim1 := 1 + cr.Intn(L+1)
+				if L > 1 {
+					lim1 = 1 + cr.Intn(L-1) // something is left for the second page
+				}
+				hugeShare = 45
+				lim2r, lim2, lim2s := huge(rng.Pick(cr, []int{1, 2, L, L + 1}))
+				if lim2 == 0 {
+					lim2r, lim2, lim2s = 1, 1, "1"
+				}
+				rv := cr.Bool()
+				items1, next, _, failed := ask(&query.PageRequest{Limit: uint64(lim1), Reverse: rv})
+				exp := cq.VL(cq.VZ(1))
+				if failed != !valid {
+					fail("page-error", "the listing query fails / succeeds against the validity of the protocol filter")
+				}
+				if !failed {
+					dir := append([]cq.V{}, ref...)
+					if rv {
+						for i, j := 0, len(dir)-1; i < j; i, j = i+1, j-1 {
+							dir[i], dir[j] = dir[j], dir[i]
+						}
+					}
+					second := cq.VL(cq.VZ(2))
+					got := append([]cq.V{}, items1...)
+					if len(next) > 0 {
+						items2, next2, _, f2 := ask(&query.PageRequest{Key: next, Limit: lim2r, Reverse: rv})
+						if f2 {
+							fail("resume-refused", "a request from a next key the listing handed out is refused")
+							second = cq.VL(cq.VZ(1))
+						} else {
+							second = cq.VL(cq.VZ(0), cq.VL(items2...), cq.VB(len(next2) > 0), cq.VU(0))
+							got = append(got, items2...)
+						}
+					}
+					want := dir
+					if len(want) > lim1+lim2 {
+						want = want[:lim1+lim2]
+					}
+					if !cq.VL(got...).Equal(cq.VL(want...)) {
+						fail("resume-content", fmt.Sprintf("a page of %d followed by a page of %s from its next key (reverse %v) over the %s listing for %s gives %d entries, not the first %d matching entries in key order",
+							lim1, lim2s, rv, kind, pname, len(got), len(want)))
+					}
+					exp = cq.VL(cq.VZ(0), cq.VL(items1...), second)
+				}
+				desc["query"] = fmt.Sprintf("page limit=%d then from its next key limit=%s reverse=%v", lim1, lim2s, rv)
+				c = Case{Input: fmt.Sprintf("PResume %s %s %s %d%%nat %d%%nat %s", st.Coq(), listingCoq[kind], cq.Str(pname), lim1, lim2, cq.Bool(rv)),
+					Expected: exp, Kind: "resume/" + kind, NonTriv: L > 1}
 			case 0, 1: // direct lookups
 				if strings.HasPrefix(kind, "amt") {
 					var req dispatchertypes.QueryDispatchedAmountsRequest
@@ -302,14 +360,14 @@ func Pages(r *rng.R, n int) Result {
 				}
 			case 2, 3, 4, 5: // one page
 				off := rng.Pick(cr, []int{0, 0, 1, 2, L, L + 1, L + 5})
-				lim := rng.Pick(cr, []int{0, 1, 2, 3, L, L + 1})
+				limr, lim, lims := huge(rng.Pick(cr, []int{0, 1, 2, 3, L, L + 1}))
 				ct, rv := cr.Bool(), cr.Bool()
-				items, next, total, failed := ask(&query.PageRequest{Offset: uint64(off), Limit: uint64(lim), CountTotal: ct, Reverse: rv})
+				items, next, total, failed := ask(&query.PageRequest{Offset: uint64(off), Limit: limr, CountTotal: ct, Reverse: rv})
 				exp := cq.VL(cq.VZ(1))
 				if !failed {
 					exp = cq.VL(cq.VZ(0), cq.VL(items...), cq.VB(len(next) > 0), cq.VU(total))
 				}
-				desc["query"] = fmt.Sprintf("page offset=%d limit=%d count_total=%v reverse=%v", off, lim, ct, rv)
+				desc["query"] = fmt.Sprintf("page offset=%d limit=%s count_total=%v reverse=%v", off, lims, ct, rv)
 				if failed != !valid {
 					fail("page-error", "the listing query fails / succeeds against the validity of the protocol filter")
 				}
@@ -332,7 +390,7 @@ func Pages(r *rng.R, n int) Result {
 						}
 					}
 					if !cq.VL(items...).Equal(cq.VL(want...)) {
-						fail("page-content", fmt.Sprintf("page (offset %d, limit %d, reverse %v) of the %s listing for %s is not the corresponding chunk of the matching entries in key order", off, lim, rv, kind, pname))
+						fail("page-content", fmt.Sprintf("page (offset %d, limit %s, reverse %v) of the %s listing for %s is not the corresponding chunk of the matching entries in key order", off, lims, rv, kind, pname))
 					}
 					if (ct || lim == 0) && off <= L && total != uint64(L) {
 						fail("page-total", fmt.Sprintf("total %d reported for a listing of %d matching entries", total, L))
@@ -341,21 +399,21 @@ func Pages(r *rng.R, n int) Result {
 				c = Case{Input: fmt.Sprintf("PPage %s %s %s %d%%nat %d%%nat %s %s", st.Coq(), listingCoq[kind], cq.Str(pname), off, lim, cq.Bool(ct), cq.Bool(rv)),
 					Expected: exp, Kind: "page/" + kind, NonTriv: L > 0}
 			case 6, 7, 8: // a whole walk
-				lim := 1 + cr.Intn(L+2)
+				limr, lim, lims := huge(1 + cr.Intn(L+2))
 				rv := cr.Bool()
 				var pages []cq.V
 				var all []cq.V
 				failed := false
 				var key []byte
 				for step := 0; step <= L+2; step++ {
-					items, next, _, f := ask(&query.PageRequest{Key: key, Limit: uint64(lim), Reverse: rv})
+					items, next, _, f := ask(&query.PageRequest{Key: key, Limit: limr, Reverse: rv})
 					if f {
 						failed = true
 						break
 					}
 					pages = append(pages, cq.VL(items...))
 					all = append(all, items...)
-					if len(items) > lim {
+					if uint64(len(items)) > limr {
 						fail("walk-page-size", "a page holds more entries than the limit")
 					}
 					if len(next) == 0 {
@@ -373,13 +431,13 @@ func Pages(r *rng.R, n int) Result {
 						}
 					}
 					if !cq.VL(all...).Equal(cq.VL(dir...)) {
-						fail("walk-content", fmt.Sprintf("following next-keys with page size %d (reverse %v) over the %s listing for %s visits %d entries; the matching entries in key order are %d (omission, duplicate or foreign entry)", lim, rv, kind, pname, len(all), L))
+						fail("walk-content", fmt.Sprintf("following next-keys with page size %s (reverse %v) over the %s listing for %s visits %d entries; the matching entries in key order are %d (omission, duplicate or foreign entry)", lims, rv, kind, pname, len(all), L))
 					}
 				}
 				if failed != !valid {
 					fail("page-error", "the listing query fails / succeeds against the validity of the protocol filter")
 				}
-				desc["query"] = fmt.Sprintf("walk limit=%d reverse=%v", lim, rv)
+				desc["query"] = fmt.Sprintf("walk limit=%s reverse=%v", lims, rv)
 				c = Case{Input: fmt.Sprintf("PWalk %s %s %s %d%%nat %s", st.Coq(), listingCoq[kind], cq.Str(pname), lim, cq.Bool(rv)), Expected: exp, Kind: "walk/" + kind, NonTriv: L > 1}
 			default: // key and offset together
 				_, next, _, f0 := ask(&query.PageRequest{Limit: 1})
